@@ -42,7 +42,7 @@ ANGLE_DESTS = ['my url', 'a(b', '/x y/z']
 TITLES = ['title', 'a title', "it's", 'say "hi"', 'one (two)', 'Ünï']
 # semantic values (what the attribute must contain); spell_tail() chooses a spelling with backslash escapes / references
 RICH_TITLES = ['it`s', 'a*b', 'x_y z_', '5 > 3 & 2', '<b>', '[x]', 'back\\slash', 'a\\*b', '&amp;', '**', '``x', '!#$%', '"both\' (kinds)"', 'tail\\',
-               'a|b', '\\&amp;', 'q: "x"']
+               'a|b', '\\&amp;', 'q: "x"', '{x}', '{', 'a } b', '{target} {inner} {title}', '{{b}}', '{0} %s %(x)s']
 RICH_DESTS = ['/a`b', '/a*b*', '/x\\y', '/a"b', "/a'b", '/&amp;', '/a(b(c))', '/a)b', '/[x]', '/a<b>', '/a\\*b', '/_x_', '/a(b', '/~', '/&copy']
 AUTOLINKS = ['http://example.com/path', 'https://a.b/c?d=e&f=g', 'ftp://host/file.txt', 'mailto:someone@example.com']
 EMAILS = ['user@example.com', 'first.last@sub.example.org']
@@ -581,6 +581,10 @@ class Gen:
         length = rng.choice((3, 3, 3, 4, 6))
         if ch == '~' and rng.random() < 0.3:
             lines.append('```')
+        if length > 3 and rng.random() < 0.5:
+            # 4.5: a shorter run of the fence character does not close the block (and what follows it is still code)
+            lines.insert(rng.randint(0, len(lines)), ch * rng.randint(3, length - 1))
+            lines.append(rng.choice(('# not a heading', 'not a heading', '===')))
         # content must not close the fence (4.5): no line of >= length fence chars only
         lines = [l for l in lines if not (l.strip() and set(l.strip()) == {ch} and len(l.strip()) >= length)]
         return Node('fence', ch=ch, length=length, info=info, lines=lines, closed=True, close_extra=rng.choice((0, 0, 0, 1, 3)),
@@ -712,6 +716,11 @@ def deep_last(nd):
     return nd
 
 
+def direct_quote_leaf(nd):
+    """Is the container a block quote whose own last child is a leaf block (no container in between)?"""
+    return nd.kind == 'quote' and bool(nd.blocks) and nd.blocks[-1].kind not in ('quote', 'list')
+
+
 def can_follow(prev, nxt, opt=None):
     """May ``nxt`` directly follow ``prev`` without a blank line and still be the intended tree (R9)?"""
     pk, nk = prev.kind, nxt.kind
@@ -732,6 +741,10 @@ def can_follow(prev, nxt, opt=None):
             return False
         if leaf.kind == 'para':
             return can_follow(leaf, nxt, opt)             # what can interrupt that paragraph also ends its lazy continuation
+        if leaf.kind == 'fence' and leaf.closed and nk in ('para', 'setext', 'table') and direct_quote_leaf(prev):
+            # the closing fence line ends the code block: the next line cannot continue it lazily, the quote ends (5.1).
+            # (one level only: through a further quote this is the known finding C03-lazy-after-nonparagraph-in-quote)
+            return True
         if leaf.kind in ('atx', 'hr') or (leaf.kind == 'fence' and leaf.closed):
             if nk in ('para', 'setext', 'table'):
                 # nothing is open that the line could continue lazily: it starts a new paragraph after the container
